@@ -313,6 +313,27 @@ pub fn c01_families(tier: &str) -> Vec<SeqSpec> {
     v.push(spec("F-flush/T300", &["T300"], k3(), a1(), if t { 7 } else { 4 }, READS).flush());
     v.push(spec("F-flush2/T300", &["T300"], k2(), a_small2(), if t { 9 } else { 6 }, READS).flush());
     v.push(spec("F-flush/T1", &["T1"], k3s(), a1(), if t { 6 } else { 4 }, READS).flush());
+    // Bloom filters built under one bits_per_key and read under another after a reopen; gap keys
+    // (lookups of absent keys go through the filters)
+    let mut abl = a1();
+    abl.extend(reopen_ops(3));
+    v.push(spec("F-bloom-reopen", &["T300b2", "T300b30", "T300"], k3g(), abl, if t { 5 } else { 3 }, READS).flush());
+    // keys longer than a block (4500 bytes), one a prefix of the other
+    v.push(
+        spec(
+            "F-longkeys/T300",
+            &["T300b30", "T300"],
+            vec![vec![b'c'; 4500], [vec![b'c'; 4500], b"d".to_vec()].concat(), b"e".to_vec()],
+            {
+                let mut a = a1();
+                a.extend(reopen_ops(2));
+                a
+            },
+            if t { 4 } else { 3 },
+            READS,
+        )
+        .flush(),
+    );
     // a block cache of two entries: every block read evicts another block
     v.push(spec("F-flush/T300c", &["T300c"], k3s(), a1(), if t { 6 } else { 4 }, READS).flush());
     // gap keys + a filter that lets every lookup through (see `k3g`)
@@ -351,6 +372,9 @@ pub fn c01_families(tier: &str) -> Vec<SeqSpec> {
         abs.push(Op::Put(k, 0));
         abs.push(Op::Del(k));
     }
+    // empty values (a put of an empty value is not a delete)
+    abs.push(Op::Put(0, 4));
+    abs.push(Op::Put(2, 4));
     abs.push(Op::Compact(None, None));
     abs.extend(reopen_ops(2));
     v.push(spec("F-bytes-small", &["T300", "T1n"], k5(), abs, if t { 5 } else { 3 }, READS).flush());
@@ -446,6 +470,8 @@ fn a_c07_small() -> Vec<Op> {
     a.push(Op::Compact(None, Some(1)));
     a.push(Op::Compact(Some(1), None));
     a.push(Op::Compact(Some(2), Some(2)));
+    // begin after end
+    a.push(Op::Compact(Some(2), Some(0)));
     a.push(Op::Snap);
     a.push(Op::Release(0));
     a
@@ -566,6 +592,18 @@ pub fn c03_seq_families(tier: &str) -> Vec<SeqSpec> {
         spec("C03-bigvals/D", &["D"], k2(), vec![Op::Put(0, 3), Op::Put(1, 3), Op::Snap, Op::Release(0), Op::Flush, Op::Compact(None, None)], if t { 6 } else { 4 }, ck)
             .with_setup(vec![Op::Put(0, 3), Op::Snap, Op::Put(0, 3)]),
     );
+    // up to four snapshots alive at once (released in any order)
+    fams.push(
+        spec(
+            "C03-snap4/T300s4",
+            &["T300s4"],
+            k2(),
+            vec![Op::Put(0, 0), Op::Put(1, 0), Op::Del(0), Op::Snap, Op::Release(0), Op::Release(2), Op::Compact(None, None)],
+            if t { 7 } else { 5 },
+            ck,
+        )
+        .flush(),
+    );
     // shortenable index separators and a filter that lets every lookup through: a snapshot read of
     // a key whose only entries in a newer file are too new runs past the end of that file's block
     fams.push(spec("C03-gap/T300p", &["T300p"], k3g(), a_c03_small3(), if t { 6 } else { 4 }, ck).flush());
@@ -634,6 +672,7 @@ fn a_c09() -> Vec<Op> {
     a.push(Op::DropIter);
     a.push(Op::Scan);
     a.push(Op::Compact(Some(0), Some(1)));
+    a.push(Op::Compact(Some(2), Some(0)));
     a.push(Op::Flush);
     for d in 0..=9u8 {
         a.push(Op::Desc(d));
